@@ -121,7 +121,7 @@ func (w *WaitGroup) Add(d int) {
 	}
 	gl.Unlock()
 }
-func (w *WaitGroup) Done()     { w.Add(-1) }
+func (w *WaitGroup) Done() { w.Add(-1) }
 func (w *WaitGroup) Wait() {
 	t := cur()
 	if t == nil {
@@ -160,10 +160,10 @@ func (o *Once) Do(f func()) {
 
 type Map struct{ m sync.Map }
 
-func (m *Map) Load(k interface{}) (interface{}, bool)  { return m.m.Load(k) }
-func (m *Map) Store(k, v interface{})                  { m.m.Store(k, v) }
-func (m *Map) Delete(k interface{})                    { m.m.Delete(k) }
-func (m *Map) Range(f func(k, v interface{}) bool)     { m.m.Range(f) }
+func (m *Map) Load(k interface{}) (interface{}, bool)           { return m.m.Load(k) }
+func (m *Map) Store(k, v interface{})                           { m.m.Store(k, v) }
+func (m *Map) Delete(k interface{})                             { m.m.Delete(k) }
+func (m *Map) Range(f func(k, v interface{}) bool)              { m.m.Range(f) }
 func (m *Map) LoadOrStore(k, v interface{}) (interface{}, bool) { return m.m.LoadOrStore(k, v) }
 
 func caller() string {
